@@ -819,6 +819,11 @@ def mon_C01(s):
         rec = st["sequence"][idx]
         if rec["status"] not in ("succeeded", "failed") or op["status"] not in ("succeeded", "failed"):
             continue
+        # only the report that completed the record decided its transitions (a late or duplicate
+        # report finds them decided, on the result of the earlier completion)
+        before = s["replies"][i - 1].get("state") if i > 0 else None
+        if before is None or idx >= len(before["sequence"]) or before["sequence"][idx]["status"] in TERMINAL:
+            continue
         env = None
         try:
             cx = {}
